@@ -485,6 +485,18 @@ def finding_probes(R, exe):
     L.paths = [p]
     L.modelled = False
     out.append((L, ["setnum file.mmap_policy 1", "read 1 %d %d" % (2 * PS, PS)]))
+    # (d) not a listed finding: a file whose size is not a multiple of the page size, read(2) path, the block cache (16 entries)
+    # recycled before the last, partial block is read: the bytes behind EOF of that block are zeroes whatever came before
+    cut = rng.choice([0x345, 0x800, 1, PS - 1])
+    L = ELF(dict(kind="elf", variant="partial-last-block", truncate_to=PS + 20 * PS + cut,
+                 segs=[dict(paddr=0, filesz=24 * PS, memsz=24 * PS, voff=VOFF, salt=0)]))
+    p = R.path("probe-eofpart.elf")
+    L.placed = dumpgen.write_elf_salted(p, L.spec["segs"], ps=PS, truncate_to=L.spec["truncate_to"])
+    L.paths = [p]
+    L.modelled = False
+    order = list(range(20)); rng.shuffle(order)
+    out.append((L, ["setnum file.mmap_policy 0"] + ["read 1 %d %d" % (q * PS, PS) for q in order] +
+                ["read 1 %d %d" % (20 * PS, PS), "read 1 %d %d" % (20 * PS + cut - 1, 40), "setnum file.mmap_policy 1", "read 1 %d %d" % (20 * PS, PS)]))
     return out
 
 
@@ -591,9 +603,9 @@ def replay(R, path):
     j = json.load(open(path))
     L = KINDS[j["layout"]["kind"]](j["layout"])
     exe = R.build_harness("s_hist", ["s_hist.c"])
-    if L.spec.get("truncated"):
+    if L.spec.get("truncated") or L.spec.get("truncate_to"):
         p = R.path("replay.elf")
-        L.placed = dumpgen.write_elf_salted(p, L.spec["segs"], ps=PS, truncate_to=3 * PS)
+        L.placed = dumpgen.write_elf_salted(p, L.spec["segs"], ps=PS, truncate_to=L.spec.get("truncate_to", 3 * PS))
         L.paths = [p]; L.modelled = False
     else:
         L.build(R, "replay")
